@@ -526,27 +526,71 @@ def check_state(ctx) -> None:
 
 
 # ---------------------------------------------------------------------------------------- detach
+def check_reaction_copy(ctx) -> None:
+    """Reaction.copy evaluated on stand-in graphs: afterwards the reaction, its metabolites and its genes point to the
+    model they pointed to before - each to its own (a reaction that was removed from a model has no model while its
+    metabolites and genes still belong to it) -, and the result is a new reaction without a model that shares no
+    mutable object with the original graph."""
+    from . import copyform
+    from ..interp import Interp
+    import copy as _copy
+
+    prog = ctx.prog
+    rc = prog.func("cobra.core.reaction", "Reaction.copy")
+    n_ok = 0
+    for scenario in ("a reaction of a model", "a reaction that was removed from its model (its metabolites and genes still belong to it)", "a reaction outside any model"):
+        classes, attrs = copyform.build_classes(prog)
+        m = copyform.build_model(classes, attrs)
+        r = m.reactions.get_by_id("R1")
+        mets, genes = list(r._metabolites), list(r._genes)
+        if scenario.startswith("a reaction that was removed"):
+            list.remove(m.reactions, r)
+            r._model = None
+            for x in mets + genes:
+                x._reaction.discard(r)
+        elif scenario.startswith("a reaction outside"):
+            list.remove(m.reactions, r)
+            r._model = None
+            for x in mets:
+                list.remove(m.metabolites, x)
+            for x in genes:
+                list.remove(m.genes, x)
+            for x in mets + genes:
+                x._model = None
+                x._reaction = {r}
+        before = {id(x): x._model for x in [r] + mets + genes}
+        stubs = {"copy.copy": lambda it_, ev, c, a, k: _copy.copy(a[0]), "copy.deepcopy": lambda it_, ev, c, a, k: _copy.deepcopy(a[0])}
+        it = Interp(prog, (copyform._S,), [], stubs, globals_={})
+        try:
+            new = it.call(rc, [], {}, selfobj=r)
+        except EvalRaise as exc:
+            ctx.bad("C12.detach", rc, rc.node, f"Reaction.copy() of {scenario} raises {exc.exc_type}")
+            continue
+        except Unknown as exc:
+            raise AnalysisError(f"C12.detach: Reaction.copy cannot be evaluated: {exc}")
+        wrong = [x for x in [r] + mets + genes if x._model is not before[id(x)]]
+        if wrong:
+            x = wrong[0]
+            ctx.bad("C12.detach", rc, rc.node, f"after copy() of {scenario}, {x!r} points to {x._model!r} instead of {before[id(x)]!r}: Reaction.copy does not give every object its own model pointer back" + (" (a metabolite/gene that is still listed in a model then reports `model is None`)" if x._model is None else ""))
+            continue
+        if not isinstance(new, classes["Reaction"]) or new is r:
+            ctx.bad("C12.detach", rc, rc.node, f"Reaction.copy() of {scenario} does not return a new reaction")
+            continue
+        a_, b_ = copyform.reachable(m, "model"), copyform.reachable(new, "copy")
+        a_.update(copyform.reachable(r, "reaction"))
+        shared = sorted((b_[k][1], a_[k][1]) for k in set(a_) & set(b_))
+        if new._model is not None:
+            ctx.bad("C12.detach", rc, rc.node, f"the copy of {scenario} claims to belong to a model")
+        elif shared:
+            ctx.bad("C12.detach", rc, rc.node, f"the copy of {scenario} shares {shared[0][0]} with the original ({shared[0][1]})")
+        else:
+            n_ok += 1
+            ctx.ok("C12.detach", rc, scenario, f"{scenario}: every model pointer is back where it was, the copy is new, detached and shares nothing (evaluated)")
+
+
 def check_detach(ctx) -> None:
     prog, eff, inf = ctx.prog, ctx.eff, ctx.inf
-    rc = prog.func("cobra.core.reaction", "Reaction.copy")
-    sr = eff._save_restore(rc)
-    writes = [e for e in eff.own_effects(rc) if e.kind == "RAW" and e.cell.endswith("._model")]
-    if not writes:
-        raise AnalysisError("Reaction.copy: the detach/restore writes were not found")
-    for w in writes:
-        st = enclosing_stmt(w.node)
-        verdict = sr.get(id(w.node))
-        if verdict in ("restore", "paired"):
-            ctx.ok("C12.detach", rc, st, "restores the saved pointer" if verdict == "restore" else "cleared temporarily; the restore post-dominates it on every exit")
-        else:
-            ctx.bad("C12.detach", rc, st, "Reaction.copy clears a model pointer of the original (or of its metabolites/genes) and does not restore it on every exit")
-    rets = [n for n in walk_local(rc.node) if isinstance(n, ast.Return)]
-    for r in rets:
-        roots = eff.roots_of(rc, r.value) if r.value is not None else frozenset()
-        if roots and all(x in (FRESH, CONST) for x in roots):
-            ctx.ok("C12.detach", rc, r, "returns the deep copy")
-        else:
-            ctx.bad("C12.detach", rc, r, "Reaction.copy does not return a new object")
+    ctx.guard(check_reaction_copy, ctx)
     # operators
     for name in ("__add__", "__sub__", "__mul__"):
         fn = prog.func("cobra.core.reaction", f"Reaction.{name}")
